@@ -773,3 +773,45 @@ pub fn explore_iterative(sc: &ScenarioFn, cfg: &ExploreCfg) -> Result<ExploreSta
     }
     Ok(best.unwrap())
 }
+
+/// Explore many scenarios, parallel over scenarios (outer) and, when there are
+/// few of them, also inside each exploration. Returns per-scenario results in input order.
+pub fn explore_many(
+    items: Vec<(ScenarioFn, ExploreCfg)>,
+    total_workers: usize,
+) -> Vec<Result<ExploreStats, String>> {
+    let n = items.len();
+    if n == 0 {
+        return vec![];
+    }
+    let outer = total_workers.min(n).max(1);
+    let inner = (total_workers / outer).max(1);
+    let items = Arc::new(items);
+    let next = Arc::new(AtomicU64::new(0));
+    let results: Arc<Mutex<Vec<Option<Result<ExploreStats, String>>>>> =
+        Arc::new(Mutex::new((0..n).map(|_| None).collect()));
+    let mut hs = vec![];
+    for _ in 0..outer {
+        let items = items.clone();
+        let next = next.clone();
+        let results = results.clone();
+        hs.push(std::thread::spawn(move || {
+            loop {
+                let i = next.fetch_add(1, Ordering::SeqCst) as usize;
+                if i >= items.len() {
+                    return;
+                }
+                let (sc, cfg) = &items[i];
+                let mut cfg = cfg.clone();
+                cfg.workers = inner;
+                let r = explore_iterative(sc, &cfg);
+                results.lock().unwrap()[i] = Some(r);
+            }
+        }));
+    }
+    for h in hs {
+        let _ = h.join();
+    }
+    let mut g = results.lock().unwrap();
+    g.drain(..).map(|r| r.unwrap_or_else(|| Err("worker died".into()))).collect()
+}
